@@ -1,6 +1,306 @@
 package main
 
-// tryReplay: concretise a counterexample and run it against the real code (per-function drivers).
-func tryReplay(p *Program, prop string, o *Obligation, vc *VC, dir string) map[string]interface{} {
-	return nil
+// Counterexample replay. For a function with a registered driver a failed obligation is re-examined in refutation
+// mode (loops unrolled up to a small bound instead of cut at their invariants, callees inlined), which turns the
+// postcondition into a quantifier-free question the solver can answer with a model. The model is concretised into Go
+// values, and a generated in-package test (injected with `go test -overlay`, the repository is not touched) runs the REAL
+// function on them and evaluates an oracle written from the property statement. Only a run in which the real code
+// violates the oracle counts as a reproduced counterexample.
+
+import (
+	"encoding/json"
+	"fmt"
+	"go/types"
+	"os"
+	"os/exec"
+	"path/filepath"
+	"regexp"
+	"sort"
+	"strconv"
+	"strings"
+)
+
+type replayDriver func(p *Program, prop string, o *Obligation, dir string) map[string]interface{}
+
+var replayDrivers = map[string]replayDriver{
+	"provider.GetAcsUrlAndBindingForResponse": replayGetAcs,
+}
+
+func tryReplay(p *Program, prop string, o *Obligation, vc *VC, dir string) (res map[string]interface{}) {
+	if vc == nil || vc.top == nil {
+		return nil
+	}
+	d := replayDrivers[p.shortName(vc.top)]
+	if d == nil {
+		return map[string]interface{}{"attempted": false, "reason": "no replay driver for " + p.shortName(vc.top) + " (drivers exist for: " + strings.Join(driverNames(), ", ") + ")"}
+	}
+	defer func() {
+		if r := recover(); r != nil {
+			res = map[string]interface{}{"attempted": true, "reproduced": false, "reason": fmt.Sprintf("replay machinery failed: %v", r)}
+		}
+	}()
+	return d(p, prop, o, dir)
+}
+
+func driverNames() []string {
+	var ns []string
+	for n := range replayDrivers {
+		ns = append(ns, n)
+	}
+	sort.Strings(ns)
+	return ns
+}
+
+var valueLine = regexp.MustCompile(`\(\s*(\|[^|]*\||[^\s()]+)\s+(.*?)\)\s*$`)
+
+// modelValues asks z3 for a model of assumptions /\ not goal and returns the values of the named terms
+func modelValues(as []*Term, goal *Term, terms map[string]*Term, dir, name string) (map[string]string, string) {
+	termMu.Lock()
+	q := smtQueryG(as, goal, true, terms, true)
+	termMu.Unlock()
+	file := filepath.Join(dir, name+".smt2")
+	os.WriteFile(file, []byte(q), 0o644)
+	if k := os.Getenv("GOVC_KEEP_REPLAY"); k != "" {
+		os.WriteFile(filepath.Join(k, name+".smt2"), []byte(q), 0o644)
+	}
+	out, _ := exec.Command("z3-new", "-T:20", file).CombinedOutput()
+	text := string(out)
+	lines := strings.Split(text, "\n")
+	if len(lines) == 0 || strings.TrimSpace(lines[0]) != "sat" {
+		return nil, strings.TrimSpace(lines[0])
+	}
+	vals := map[string]string{}
+	for _, l := range lines[1:] {
+		l = strings.TrimSpace(l)
+		if strings.HasPrefix(l, "((") {
+			l = l[1:]
+		}
+		if m := valueLine.FindStringSubmatch(l); m != nil {
+			k := strings.Trim(m[1], "|")
+			k = strings.TrimPrefix(k, "m!")
+			vals[k] = strings.TrimSpace(strings.TrimSuffix(strings.TrimSpace(m[2]), ")"))
+		}
+	}
+	return vals, "sat"
+}
+
+func smtInt(s string) (int64, bool) {
+	s = strings.TrimSpace(s)
+	s = strings.ReplaceAll(strings.ReplaceAll(strings.ReplaceAll(s, "(", " "), ")", " "), "  ", " ")
+	f := strings.Fields(s)
+	if len(f) == 2 && f[0] == "-" {
+		n, err := strconv.ParseInt(f[1], 10, 64)
+		return -n, err == nil
+	}
+	if len(f) == 1 {
+		n, err := strconv.ParseInt(f[0], 10, 64)
+		return n, err == nil
+	}
+	return 0, false
+}
+
+// replayGetAcs: GetAcsUrlAndBindingForResponse(acs []md.IndexedEndpointType, requestProtocolBinding string)
+func replayGetAcs(p *Program, prop string, o *Obligation, dir string) map[string]interface{} {
+	f := p.byName["provider.GetAcsUrlAndBindingForResponse"]
+	ct := p.contractFor(f)
+	vc, err := p.verifyFunctionOpt(f, ct, false, true, 4)
+	if err != nil {
+		return map[string]interface{}{"attempted": true, "reproduced": false, "reason": "refutation-mode execution failed: " + firstLines(err.Error(), 2)}
+	}
+	base := strings.SplitN(o.Name, "#", 2)[0]
+	const maxN = 4
+	acs, ok := vc.paramVals[0].(SliceV)
+	req, ok2 := vc.paramVals[1].(*Term)
+	if !ok || !ok2 {
+		return map[string]interface{}{"attempted": true, "reproduced": false, "reason": "unexpected parameter shapes"}
+	}
+	elemT := sliceElem(f.Params[0].Type())
+	fields := []string{"Index", "IsDefault", "Binding", "Location"}
+	tried := 0
+	var last map[string]interface{}
+	for _, ro := range vc.obls {
+		// any postcondition that fails on a bounded unrolling yields an input; the clause the obligation belongs to is tried first
+		if ro.Kind != "post" || ro.Aux {
+			continue
+		}
+		_ = base
+		tried++
+		terms := map[string]*Term{"n": acs.Len, "req": req, "lit_empty": StrLit(""), "lit_true": StrLit("true"), "lit_1": StrLit("1")}
+		for i := 0; i < maxN; i++ {
+			sv := vc.preState.load(Elem(acs.Base, IntLit(int64(i))), elemT).(StructV)
+			for _, fn := range fields {
+				t := structField(sv, fn)
+				terms[fmt.Sprintf("%s_%d", fn, i)] = t
+				if fn == "Index" {
+					terms[fmt.Sprintf("atoi_%d", i)] = App("atoi", SInt, t)
+				}
+			}
+		}
+		as := append([]*Term{}, vc.facts[:ro.NFacts]...)
+		as = append(as, ro.Reach, Le(acs.Len, IntLit(maxN)))
+		vals, verdict := modelValues(as, ro.Goal, terms, dir, fmt.Sprintf("replay_%d", tried))
+		if vals == nil {
+			continue
+		}
+		n, _ := smtInt(vals["n"])
+		if n < 0 || n > maxN {
+			continue
+		}
+		// concretise the uninterpreted strings: literals keep their text, everything else gets a distinct name
+		text := map[string]string{vals["lit_empty"]: "", vals["lit_true"]: "true", vals["lit_1"]: "1"}
+		fresh := 0
+		str := func(abs string) string {
+			if s, ok := text[abs]; ok {
+				return s
+			}
+			fresh++
+			s := fmt.Sprintf("urn:x:s%d", fresh)
+			text[abs] = s
+			return s
+		}
+		type entry struct{ Index, IsDefault, Binding, Location string }
+		var es []entry
+		usedIdx := map[string]bool{}
+		for i := 0; i < int(n); i++ {
+			var e entry
+			// Index: a decimal string with the value the model gives atoi(Index); distinct abstract strings stay distinct
+			av := vals[fmt.Sprintf("Index_%d", i)]
+			if s, ok := text["idx:"+av]; ok {
+				e.Index = s
+			} else {
+				k, _ := smtInt(vals[fmt.Sprintf("atoi_%d", i)])
+				if k < 0 {
+					k = 0 // the contract's domain is xs:unsignedShort; strconv.Atoi of a non-number is 0 as well
+				}
+				s := strconv.FormatInt(k, 10)
+				for usedIdx[s] {
+					s = "0" + s
+				}
+				usedIdx[s] = true
+				text["idx:"+av] = s
+				e.Index = s
+			}
+			e.IsDefault = str(vals[fmt.Sprintf("IsDefault_%d", i)])
+			e.Binding = str(vals[fmt.Sprintf("Binding_%d", i)])
+			e.Location = str(vals[fmt.Sprintf("Location_%d", i)])
+			es = append(es, e)
+		}
+		reqS := str(vals["req"])
+		var lits []string
+		for _, e := range es {
+			lits = append(lits, fmt.Sprintf("{Index: %q, IsDefault: %q, Binding: %q, Location: %q}", e.Index, e.IsDefault, e.Binding, e.Location))
+		}
+		test := fmt.Sprintf(replayGetAcsTest, strings.Join(lits, ", "), reqS)
+		out, reproduced := runOverlayTest(p.repo, "pkg/provider", "zz_govc_replay_test.go", test, "TestGovcReplayC16", dir)
+		res := map[string]interface{}{"attempted": true, "solver_verdict": verdict, "refutation_obligation": ro.Name,
+			"input": map[string]interface{}{"acs": es, "requestProtocolBinding": reqS}, "go_test_output": trunc(out, 1500), "reproduced": reproduced}
+		if reproduced {
+			res["how"] = "go test -overlay (in-package test calling the real GetAcsUrlAndBindingForResponse, oracle: first binding match in document order, else first xs:boolean-true isDefault, else an entry of minimal index, nothing iff the list is empty)"
+			return res
+		}
+		last = res
+		if tried >= 24 {
+			return res
+		}
+	}
+	out := map[string]interface{}{"attempted": true, "reproduced": false, "reason": fmt.Sprintf("no model reproduced on the real code (%d refutation queries with lists of up to %d entries)", tried, maxN)}
+	if last != nil {
+		out["last_attempt"] = last
+	}
+	return out
+}
+
+const replayGetAcsTest = `package provider
+
+import (
+	"strconv"
+	"testing"
+
+	"github.com/zitadel/saml/pkg/provider/xml/md"
+)
+
+func TestGovcReplayC16(t *testing.T) {
+	acs := []md.IndexedEndpointType{%s}
+	req := %q
+	url, binding := GetAcsUrlAndBindingForResponse(acs, req)
+	isEntry := func(e md.IndexedEndpointType) bool { return url == e.Location && binding == e.Binding }
+	verdict := ""
+	switch {
+	case len(acs) == 0:
+		if url != "" || binding != "" {
+			verdict = "nothing is registered but something was selected"
+		}
+	default:
+		done := false
+		for _, e := range acs {
+			if e.Binding == req {
+				if !isEntry(e) {
+					verdict = "an entry with the requested binding exists but the first of them was not selected"
+				}
+				done = true
+				break
+			}
+		}
+		if !done {
+			for _, e := range acs {
+				if e.IsDefault == "true" || e.IsDefault == "1" {
+					if !isEntry(e) {
+						verdict = "no binding match: the first isDefault entry was not selected"
+					}
+					done = true
+					break
+				}
+			}
+		}
+		if !done {
+			min, _ := strconv.Atoi(acs[0].Index)
+			for _, e := range acs {
+				if i, _ := strconv.Atoi(e.Index); i < min {
+					min = i
+				}
+			}
+			ok := false
+			for _, e := range acs {
+				if i, _ := strconv.Atoi(e.Index); i == min && isEntry(e) {
+					ok = true
+				}
+			}
+			if !ok {
+				verdict = "no match, no default: the selected pair is not an entry of minimal index"
+			}
+		}
+	}
+	if verdict != "" {
+		t.Fatalf("GOVC-REPRODUCED: %%s (selected url=%%q binding=%%q)", verdict, url, binding)
+	}
+	t.Logf("GOVC-NOT-REPRODUCED: selected url=%%q binding=%%q", url, binding)
+}
+`
+
+// runOverlayTest injects an in-package test file into the package with -overlay and runs it against the real code
+func runOverlayTest(repo, pkgDir, fileName, content, testName, dir string) (string, bool) {
+	tf := filepath.Join(dir, fileName)
+	os.WriteFile(tf, []byte(content), 0o644)
+	ov := map[string]map[string]string{"Replace": {filepath.Join(repo, pkgDir, fileName): tf}}
+	data, _ := json.Marshal(ov)
+	ovf := filepath.Join(dir, "overlay.json")
+	os.WriteFile(ovf, data, 0o644)
+	cmd := exec.Command("go", "test", "-overlay", ovf, "-vet=off", "-count=1", "-timeout", "60s", "-run", "^"+testName+"$", "-v", "./"+pkgDir+"/")
+	cmd.Dir = repo
+	cmd.Env = os.Environ()
+	out, _ := cmd.CombinedOutput()
+	s := string(out)
+	return s, strings.Contains(s, "GOVC-REPRODUCED")
+}
+
+func sliceElem(t types.Type) types.Type { return t.Underlying().(*types.Slice).Elem() }
+
+func structField(sv StructV, name string) *Term {
+	st := sv.T.Underlying().(*types.Struct)
+	for i := 0; i < st.NumFields(); i++ {
+		if st.Field(i).Name() == name {
+			return sv.F[i].(*Term)
+		}
+	}
+	panic("no field " + name)
 }
